@@ -357,16 +357,32 @@ def rule_lean(form_line):
 
 VEX_REG_CLASSES = {"rvm": (0x72, 0x75), "rm": (0x68, 0x6B), "rvmi": (0x7A, 0x7C), "rmi": (0x6F, 0x71),
                    # legacy space: ExtRm, ExtRm_P, X86Rm, X86Rm_NoSize ([reg, rm]); X86Mr, X86Mr_NoSize ([rm, reg]); ExtRmi, ExtRmi_P ([reg, rm, imm8])
-                   "lrm": (0x4A, 0x4D, 0x14, 0x16), "lmr": (0x17, 0x18), "lrmi": (0x52, 0x53), "lop": (0x01,)}
+                   "lrm": (0x4A, 0x4D, 0x14, 0x16, 0x21), "lmr": (0x17, 0x18), "lrmi": (0x52, 0x53), "lop": (0x01,),
+                   # X86Arith, X86Test, register-register: the class emits the [rm, reg] form; 8-bit operands in both kinds (gpb, gpbhi)
+                   "larith": (0x19, 0x3D),
+                   # X86Rot: shift / rotate a register by an imm8 ([rm, imm8] with an opcode-extension digit), all operand sizes
+                   "lrot": (0x37,),
+                   # X86Arith `op r8, imm8` (80 /d ib)
+                   "larithi8": (0x19,),
+                   # X86Push / X86Pop with a general-purpose register: the short `50+r` / `58+r` forms (register in the opcode byte)
+                   "lopreg": (0x33, 0x35),
+                   # X86Arith `op reg, r/m` direction (opcode + 2), used by the class for a memory source
+                   "larithrm": (0x19,),
+                   # X86Mov between general-purpose registers / memory: `mov r/m, reg` (88 / 89) and `mov reg, r/m` (8A / 8B)
+                   "lmov": (0x2C,), "lmovrm": (0x2C,),
+                   # VexMr_Lx, VexMri / VexMri_Lx: r/m operand first
+                   "mr": (0x62,), "mri": (0x64, 0x65),
+                   # X86Lea: `lea reg, mem` (the memory operand has no register alternative: only the register kind is listed)
+                   "llea": (0x2B,)}
 SHAPE_ROLES = {"rvm": ["reg", "vvvv", "rm"], "rm": ["reg", "rm"], "rvmi": ["reg", "vvvv", "rm", "imm"], "rmi": ["reg", "rm", "imm"],
-               "lrm": ["reg", "rm"], "lmr": ["rm", "reg"], "lrmi": ["reg", "rm", "imm"], "lop": None}
+               "lrm": ["reg", "rm"], "lmr": ["rm", "reg"], "lrmi": ["reg", "rm", "imm"], "lop": None, "larith": ["rm", "reg"], "lrot": ["rm", "imm"], "larithi8": ["rm", "imm"], "lopreg": ["opc"], "larithrm": ["reg", "rm"], "lmov": ["rm", "reg"], "lmovrm": ["reg", "rm"], "mr": ["rm", "reg"], "mri": ["rm", "reg", "imm"], "llea": ["reg", "rm"]}
 
 
 def class_rows_lean(kept, rows, chunk=96):
     """kept: [(form, roles)], rows: {name: [id, enc, mainOp hex, altOp hex, iflags hex, aflags hex]} -> Lean source"""
     out = ["/- GENERATED by tools/gen_c01.py from db/isa_x86.json and the compiled instruction tables (harness `row`). -/",
            "import AsmjitVerif.Spec.X86Decode", "set_option maxRecDepth 100000", "namespace AsmjitVerif.Gen.X86ClassRows", "open Spec.X86", "",
-           "structure Entry where", "  name : String", "  enc : Nat", "  mainOp : BitVec 32", "  iflags : BitVec 32", "  rule : Rule", "  kinds : List RegKind", ""]
+           "structure Entry where", "  name : String", "  enc : Nat", "  mainOp : BitVec 32", "  iflags : BitVec 32", "  aflags : BitVec 32 := 0#32", "  altOp : BitVec 32 := 0#32", "  rule : Rule", "  kinds : List RegKind", ""]
     counts = {}
     for shape, encs in VEX_REG_CLASSES.items():
         entries = []
@@ -382,6 +398,10 @@ def class_rows_lean(kept, rows, chunk=96):
                     continue
             elif roles != SHAPE_ROLES[shape]:
                 continue
+            if shape == "larithi8" and f["operands"][0]["reg"] != "r8":
+                continue
+            if shape in ("lmov", "lmovrm") and any(o["reg"] not in ("r8", "r16", "r32", "r64") for o in f["operands"]):
+                continue
             if legacy:
                 pass
             elif (f["prefix"] == "EVEX" and not int(r[4], 16) & 0x800000) or (f["prefix"] == "VEX" and not int(r[4], 16) & 0x400000):
@@ -395,15 +415,19 @@ def class_rows_lean(kept, rows, chunk=96):
                     if o["imm"] != 8:
                         okf = False
                     continue
-                if o["reg"] not in CLASS or len(CLASS[o["reg"]]) != 1 or o["implicit"]:
+                if shape == "llea" and not o["reg"]:
+                    continue
+                if o["reg"] not in CLASS or (len(CLASS[o["reg"]]) != 1 and shape not in ("larith", "lrot", "larithi8", "larithrm", "lmov", "lmovrm")) or o["implicit"]:
                     okf = False
                     break
-                kinds.append(CLASS[o["reg"]][0])
+                kinds.append(CLASS[o["reg"]])
             if not okf:
                 continue
             line, _ = translate(f)
-            entries.append('  { name := "%s", enc := %d, mainOp := 0x%s#32, iflags := 0x%s#32, kinds := [%s],\n    rule := %s }' % (
-                f["name"], int(r[1]), r[2], r[4], ", ".join(KIND_LEAN[k] for k in kinds), rule_lean(line)))
+            import itertools
+            for combo in itertools.product(*kinds):
+                entries.append('  { name := "%s", enc := %d, mainOp := 0x%s#32, iflags := 0x%s#32, aflags := 0x%s#32, altOp := 0x%s#32, kinds := [%s],\n    rule := %s }' % (
+                    f["name"], int(r[1]), r[2], r[4], r[5], r[3], ", ".join(KIND_LEAN[k] for k in combo), rule_lean(line)))
         counts[shape] = len(entries)
         nch = 0
         for i in range(0, len(entries), chunk):
